@@ -139,6 +139,7 @@ pub const LOOKS: &[Look] = &[
     } },
     Look { name: "v_print", props: &["C20", "C19"], f: |x, t| { let g = pick(x, t); let (a, b) = if t { (0, 2) } else { (7, 8) }; format!("{:?} {:?}", g.v_print(a).ok(), g.v_print(b).ok()) } },
     Look { name: "inspect", props: &["C20", "C19"], f: |x, t| { let g = pick(x, t); format!("{:?}", g.inspect(if t { 0 } else { 7 }).ok()) } },
+    Look { name: "inspect(other start)", props: &[], f: |x, t| { let g = pick(x, t); format!("{:?}", g.inspect(if t { 5 } else { 1 }).ok()) } },
     Look { name: "Debug/Display", props: &["C20", "C19"], f: |x, t| { let g = pick(x, t); format!("{}|{}", g.debug(), g.display()) } },
     Look { name: "to_xml", props: &["C18", "C19"], f: |x, t| format!("{:?}", pick(x, t).to_xml().ok()) },
     Look { name: "to_dot", props: &["C18", "C19"], f: |x, t| pick(x, t).to_dot() },
@@ -178,6 +179,10 @@ pub const LOOKS: &[Look] = &[
         }
     } },
     Look { name: "clone", props: &["C10", "C19"], f: |x, t| full(&*pick(x, t).clone_box()) },
+    Look { name: "slice of a clone", props: &["C10"], f: |x, t| {
+        let c = pick(x, t).clone_box();
+        format!("{:?}", c.slice(if t { 0 } else { 7 }).map(|sl| observe_slice(&*sl)).map_err(|e| format!("{e:#}")))
+    } },
     Look { name: "clone_from", props: &["C10"], f: |x, t| {
         let mut other = new_graph(N, CAP + 3);
         other.add(11);
@@ -348,11 +353,24 @@ pub fn check_point(prop: &str, kind: u64, li: usize, r: u64, extra: u64) -> Opti
     match kind {
         0 => {
             let x = Fix::new();
+            // a second look at ANOTHER part of the graph under test (extra = its index + 1) is taken
+            // first and must read the same at the end: what the look in the middle touched does not
+            // leak into it, however many foreign calls lie between
+            let partner = (extra > 0).then(|| extra as usize - 1);
+            let p0 = partner.map(|p| look(&x, p, true));
             let a = look(&x, li, true);
             for i in 1..r {
                 let _ = look(&x, li, false);
                 if i % 4096 == 0 {
                     crate::campaign::touch();
+                }
+            }
+            if let (Some(p), Some(p0)) = (partner, p0) {
+                let p1 = look(&x, p, true);
+                if p0 != p1 {
+                    return mk("echo.foreign_calls_change_answer", format!(
+                        "look '{}' at the graph under test, then look '{}' at it, then {} times that look at another graph, then look '{}' again (the {r}th call after the one in the middle): the answers differ — {}",
+                        LOOKS[p].name, LOOKS[li].name, r - 1, LOOKS[p].name, short(&p0, &p1)));
                 }
             }
             let b = look(&x, li, true);
@@ -420,9 +438,22 @@ pub fn check_point(prop: &str, kind: u64, li: usize, r: u64, extra: u64) -> Opti
 pub fn points(prop: &str, thorough: bool) -> Vec<(u64, usize, u64, u64)> {
     let mut v = vec![];
     let ls = looks_of(prop);
+    let idx_of = |name: &str| LOOKS.iter().position(|l| l.name == name).unwrap() as u64;
     for li in &ls {
         for r in counts(thorough) {
             v.push((0, *li, r, 0));
+        }
+        // traversals: what one start reached must not show in the answer for another start
+        let partner = match LOOKS[*li].name {
+            "slice" | "slice_some" | "slice of a clone" => Some(idx_of("slice(other start)")),
+            "slice(other start)" => Some(idx_of("slice")),
+            "inspect" => Some(idx_of("inspect(other start)")),
+            _ => None,
+        };
+        if let Some(p) = partner {
+            for r in counts(thorough) {
+                v.push((0, *li, r, p + 1));
+            }
         }
     }
     let graphy: Vec<usize> = ls.iter().copied().filter(|l| !LOOKS[*l].props.iter().any(|p| matches!(*p, "C15" | "C16" | "C17"))).collect();
